@@ -92,6 +92,24 @@ def run(ctx):
     stores = [n for n in walk_local(f.node) if isinstance(n, ast.Name) and n.id == text_p and isinstance(n.ctx, (ast.Store, ast.Del))]
     ctx.check("C14.R3", "the text hashed is the argument itself (the parameter is never rebound)", not stores, f.where(stores[0]) if stores else f.where(), f"fingerprint: `{text_p}` is reassigned" if stores else "", "the fingerprint is defined for every text: a text that is transformed first (re-canonicalised, stripped, normalised) no longer has the digest of its own UTF-8 bytes")
 
+    # ... and the result is the whole digest in hex: every hexdigest() / digest() reaches the caller unsliced
+    pm_ = {}
+    for n in ast.walk(f.node):
+        for c in ast.iter_child_nodes(n):
+            pm_[id(c)] = n
+    n_dig = 0
+    for n in walk_local(f.node):
+        if isinstance(n, ast.Call) and isinstance(n.func, ast.Attribute) and n.func.attr in ("hexdigest", "digest"):
+            n_dig += 1
+            par = pm_.get(id(n))
+            cut = isinstance(par, ast.Subscript) and par.value is n
+            holder = par if isinstance(par, ast.Assign) and len(par.targets) == 1 and isinstance(par.targets[0], ast.Name) else None
+            if holder is not None:
+                cut = any(isinstance(x, ast.Subscript) and isinstance(x.value, ast.Name) and x.value.id == holder.targets[0].id and isinstance(x.slice, ast.Slice) for x in walk_local(f.node))
+            ctx.check("C14.R3", f"{norm(n)[:40]} is returned whole", not cut, f.where(n), f"fingerprint: {norm(par)[:80] if par is not None else ''}", "the digest is cut: the fingerprint is no longer the algorithm's digest of the text")
+    if n_dig == 0 and hashing:
+        ctx.unrecognised("C14.R3", "the digest is returned whole", f.where(), "no hexdigest() / digest() call found in fingerprint")
+
     ctx.rule("C14.R4", "Rabin frame: accumulator starts from 0xC15D213AA4D7A795; result rendered as 8 little-endian unsigned bytes in hex; table kept in locals", floor=4)
     r = p.func("_schema_common:rabin_fingerprint")
     consts = {}
